@@ -133,8 +133,8 @@ class WireMonitors:
             self.violation("C05", "reserialise.differs", dict(det, again=again))
             return
         ga, gb = orig.get_map(), dec.get_map()
-        if ga.ranges != gb.ranges or ga.inverted != gb.inverted:
-            self.violation("C05", "decode.map_differs", dict(det, a=ga.ranges, b=gb.ranges))
+        if list(ga.ranges) != list(gb.ranges) or bool(ga.inverted) != bool(gb.inverted):
+            self.violation("C05", "decode.map_differs", dict(det, a=list(ga.ranges), b=list(gb.ranges)))
             return
         # string input form accepted by from_json
         try:
